@@ -482,7 +482,7 @@ std::string adr_line(std::vector<std::string> const &t)
   std::string const a = range_elems(r1) + " size=" + num(fcppt::range::size(r1));
   std::string const b = range_elems(r2) + " size=" + num(fcppt::range::size(r2));
   bool const same_ends = r1.begin() == c.begin() && r1.end() == c.end() && r2.begin() == cc.begin() && r2.end() == cc.end();
-  return a == b && same_ends ? a : "const-and-mutable-differ " + a + " | " + b;
+  return a == b && same_ends ? a : "adapt-range-inconsistent " + a + " | " + b;
 }
 
 template <std::size_t N>
@@ -576,6 +576,6 @@ std::string handle(std::vector<std::string> const &t)
 
 int main()
 {
-  vh::op_budget() = 60; // one `irs` line of a 16-bit type enumerates 65536 ranges
+  vh::op_budget() = 30; // one `irs` line of a 16-bit type enumerates 65536 ranges
   return vh::run(handle);
 }
